@@ -10,8 +10,13 @@ VARIABLE i
 BadSupport(r) == {<<f, j>> \in (1..Len(r.en)) \X (1..Len(r.dir)) :
                      \/ r.inp[f][j] \notin InputSigns(r.dir[j], r.w, r.en[f][j] = 1, r.period)
                      \/ r.dis[f][j] \notin DissSigns(r.en[f][j] = 1)}
-Bad(r) == IF r.kind = "support" THEN (IF BadSupport(r) = {} THEN {} ELSE {"SignSupport"})
-          ELSE (IF RootOK(r.sg, r.res, r.finite = 1) THEN {} ELSE {"RootCell"})
+\*  kind "mask":  inm / outm (0/1 per element): a missing input gives a missing output and nothing else is missing
+\*  kind "mono":  rk = ranks of the outputs listed in increasing order of the inputs: must be strictly increasing
+Bad(r) == CASE r.kind = "support" -> (IF BadSupport(r) = {} THEN {} ELSE {"SignSupport"})
+            [] r.kind = "root"    -> (IF RootOK(r.sg, r.res, r.finite = 1) THEN {} ELSE {"RootCell"})
+            [] r.kind = "mask"    -> (IF r.inm = r.outm THEN {} ELSE {"MissingPropagation"})
+            [] r.kind = "mono"    -> (IF \A k \in 1..(Len(r.rk) - 1) : r.rk[k] < r.rk[k + 1] THEN {} ELSE {"Monotone"})
+            [] OTHER -> {"UnknownRecord"}
 TInit == i = 1
 Step == /\ i <= Len(Recs)
         /\ LET r == Recs[i] B == Bad(r)
